@@ -127,6 +127,8 @@ def run_property(ctx, which, props_file):
         ctx.corr_broken.append(('expect-hist', {'error': 'model did not build'}))
     if which in ('C01', 'C04'):
         wrapper_oracle(ctx, which, 30000 if thorough else 4000)
+    if which == 'C01':
+        unicode_pipe_oracle(ctx, 400 if thorough else 40)
 
 
 def replay(ctx, path, which):
@@ -212,3 +214,49 @@ def wrapper_oracle(ctx, which, n):
         if not ok:
             break
     ctx.oracle_stats['wrapper_histories'] = tried
+
+
+def unicode_pipe_oracle(ctx, n):
+    """C01 in unicode mode through a REAL read path (fdspawn on a pipe): multi-byte characters cut by read
+    boundaries; handed-back text + pending text must be the decoding of everything written"""
+    import os
+    from pexpect import fdpexpect
+    pexpect = common.preflight()
+    rng = ctx.rng
+    tried = 0
+    for it in range(n):
+        text = ''.join(rng.choice(['a', 'b', 'é', '☃', '😀', '\n']) for _ in range(rng.randint(2, 10)))
+        raw = text.encode('utf-8')
+        cuts = sorted(set(rng.randrange(1, len(raw)) for _ in range(rng.randint(1, 3)))) if len(raw) > 1 else []
+        pieces, prev = [], 0
+        for c_ in cuts + [len(raw)]:
+            pieces.append(raw[prev:c_])
+            prev = c_
+        r, w = os.pipe()
+        f = fdpexpect.fdspawn(r, encoding='utf-8', timeout=0.05)
+        handed = ''
+        try:
+            for p in pieces:
+                os.write(w, p)
+                pat = rng.choice(['a', 'b', 'é', '☃', 'zz'])
+                try:
+                    f.expect_exact(pat, timeout=0.05)
+                    handed += f.before + f.after
+                except pexpect.TIMEOUT:
+                    pass
+            os.close(w)
+            w = None
+            f.expect(pexpect.EOF, timeout=1)
+            handed += f.before
+        except Exception as e:
+            ctx.hit('C01/unicode-pipe', 'unicode fdspawn on pieces %r raised %r' % (pieces, e), {'pieces': [list(p) for p in pieces]})
+            return
+        finally:
+            if w is not None:
+                os.close(w)
+            os.close(r)
+        tried += 1
+        if handed != text:
+            ctx.hit('C01/unicode-pipe', 'child wrote %r in pieces %r; the expect calls handed back %r' % (text, pieces, handed), {'pieces': [list(p) for p in pieces]})
+            return
+    ctx.oracle_stats['unicode_pipe_streams'] = tried
